@@ -65,7 +65,17 @@ class _SocketHub:
         self._open_sockets.add(socket.key)
         self._remote_sockets.add(socket.key)
 
-        self._wait_for_remote(socket, timeout=timeout)
+        try:
+            self._wait_for_remote(socket, timeout=timeout)
+        except TimeoutError:
+            # The connection was never established: leave no trace of the attempt behind
+            # (a stale entry makes the remote side's later connect return at once, as if
+            # this socket had been connected and closed again).
+            self._open_sockets.discard(socket.key)
+            self._remote_sockets.discard(socket.key)
+            self._recv_callbacks.pop(socket.key, None)
+            self._conn_lost_callbacks.pop(socket.key, None)
+            raise
 
     def _add_callbacks(self, socket: thread_socket.ThreadSocket) -> None:
         if socket.use_callbacks:
